@@ -99,7 +99,10 @@ def hex16 (n : Nat) : String :=
 def parseHex (s : String) : Option Nat :=
   s.toList.foldl (fun acc c => do let a ← acc; let d ← hexVal c; pure (16 * a + d)) (some 0)
 
-def truncate3F (x : Float) : Float := (x * 1000.0).toInt64.toFloat / 1000.0
+/-- `truncate3(n)`: `n = std::min(n, 1e15); return (int64_t)(n * 1000) / 1000.0` (`std::min(a, b)` is `b < a ? b : a`) -/
+def truncate3F (x : Float) : Float :=
+  let x := if 1e15 < x then 1e15 else x
+  (x * 1000.0).toInt64.toFloat / 1000.0
 def inBetweenF (lo x hi : Float) : Float := if x < lo || hi < lo then lo else if x > hi then hi else x
 
 def alphaF : Option Int → Float
